@@ -8,6 +8,7 @@
 #include <ctype.h>
 #include "array.h"
 #include "message.h"
+#include "meta.h"
 #include "event.h"
 #include "types.h"
 #include <sys/uio.h>
@@ -15,6 +16,34 @@
 #include "drv_event_common.h"
 
 static MPT_STRUCT(dispatch) disp_storage;
+
+/* the dispatcher's own fallback reply context (disp->_ctx, op ctx): a reference counted metatype that converts to the
+ * harness reply context; released by mpt_dispatch_fini */
+struct drv_ctx { MPT_INTERFACE(metatype) mt; int refs; };
+static int drv_ctx_convert(MPT_INTERFACE(convertable) *val, MPT_TYPE(type) type, void *ptr)
+{
+	(void) val;
+	if (!type) return MPT_ENUM(TypeReplyPtr);
+	if (type == MPT_ENUM(TypeReplyPtr)) {
+		if (ptr) *((MPT_INTERFACE(reply_context) **) ptr) = &drv_rc;
+		return MPT_ENUM(TypeReplyPtr);
+	}
+	return MPT_ERROR(BadType);
+}
+static void drv_ctx_unref(MPT_INTERFACE(metatype) *mt)
+{
+	struct drv_ctx *c = (struct drv_ctx *) mt;
+	if (--c->refs <= 0) free(c);
+}
+static uintptr_t drv_ctx_addref(MPT_INTERFACE(metatype) *mt)
+{
+	return (uintptr_t) ++((struct drv_ctx *) mt)->refs;
+}
+static MPT_INTERFACE(metatype) *drv_ctx_clone(const MPT_INTERFACE(metatype) *mt)
+{
+	(void) mt; return 0;
+}
+static const MPT_INTERFACE_VPTR(metatype) drv_ctx_vptr = { { drv_ctx_convert }, drv_ctx_unref, drv_ctx_addref, drv_ctx_clone };
 
 /* a second dispatcher whose handlers unregister another id from inside their end-of-life call (op reentry) */
 static MPT_STRUCT(dispatch) re_disp;
@@ -61,7 +90,17 @@ int main(void)
 			continue;
 		}
 		if (!have) { puts("bad-op"); continue; }
-		if (!strcmp(op, "rc") && drv_nw == 3 && (!strcmp(drv_w[2], "on") || !strcmp(drv_w[2], "off"))) {
+		if (!strcmp(op, "ctx") && drv_nw == 2) {
+			/* give the dispatcher a fallback reply context of its own (kept until mpt_dispatch_fini) */
+			if (!D->_ctx) {
+				struct drv_ctx *c = malloc(sizeof(*c));
+				c->mt._vptr = &drv_ctx_vptr;
+				c->refs = 1;
+				D->_ctx = c;
+			}
+			result("ok", "0", 0);
+		}
+		else if (!strcmp(op, "rc") && drv_nw == 3 && (!strcmp(drv_w[2], "on") || !strcmp(drv_w[2], "off"))) {
 			/* from now on the events carry (no longer carry) a reply context */
 			rc_on = drv_w[2][1] == 'n';
 			result("ok", "0", 0);
